@@ -30,7 +30,9 @@ class Parenthesis(Token):
                                  Separator) and self.get_name == ')':
             from .operand import Empty
             Empty().ast(tokens, stack, builder)
-        if self.has_start and tokens and isinstance(tokens[-1], Operand):
+        if self.has_start and tokens and (isinstance(tokens[-1], Operand) or (
+                isinstance(tokens[-1], Parenthesis) and tokens[-1].has_end
+        )):
             raise TokenError
         super(Parenthesis, self).ast(tokens, stack, builder)
         if self.has_start:
